@@ -248,6 +248,10 @@ std::string handle_t(const std::string& kind, const Args& a) {
 
 } // namespace c12
 
+// sanitizer flavour: the memory-unsafe input classes abort on purpose; skip symbolisation of the (very deep)
+// template stacks, the runner only needs the first line of the report
+extern "C" const char* __asan_default_options() { return "symbolize=0:fast_unwind_on_fatal=1:malloc_context_size=0"; }
+
 std::string handle(const std::string& kind, const Args& a) {
     if (kind=="lanes") return "ok f32=" + std::to_string(c12::lanes_of<float>()) + " f64=" + std::to_string(c12::lanes_of<double>());
     std::string dt = get(a,"dtype");
